@@ -357,6 +357,11 @@ class FloatProperty(Property):
         except Exception:
             raise ValueError("must be a float.")
 
+        if value != value or value in (float("inf"), float("-inf")):
+            # NaN and the infinities are no JSON numbers: the object could
+            # never be serialized
+            raise ValueError("must be a finite number.")
+
         if self.min is not None and value < self.min:
             msg = "minimum value is {}. received {}".format(self.min, value)
             raise ValueError(msg)
